@@ -284,7 +284,9 @@ func (n *Node) Clone(name string) (*Node, error) {
 // Drop forgets the images of the node.
 func (n *Node) Drop() { DropTree(n.Root) }
 
-type nodeAddr struct{}
+// KernelContracts are registered on the kernel-contract registry of every node's contract manager
+// (the harness's own test contracts, e.g. $vprog).
+var KernelContracts []func(reg contract.KernRegistry)
 
 func (n *Node) attachState() error {
 	lg, err := logs.NewLogger("", def.StateSubModName)
@@ -310,11 +312,14 @@ func (n *Node) attachState() error {
 	n.Ctx = cctx
 	basedir := filepath.Join(n.Env.GenDataAbsPath(n.Env.ChainDir), BCName)
 	mg, err := contract.CreateManager("default", &contract.ManagerConfig{
-		BCName: BCName, Basedir: basedir, EnvConf: n.Env, Core: agent.NewChainCoreAgent(cctx), XMReader: st.CreateXMReader(),
+		BCName: BCName, Basedir: basedir, Core: agent.NewChainCoreAgent(cctx), XMReader: st.CreateXMReader(),
 		Config: &contract.ContractConfig{Xkernel: contract.XkernelConfig{Enable: true, Driver: "default"}},
 	})
 	if err != nil {
 		return fmt.Errorf("contract manager: %v", err)
+	}
+	for _, reg := range KernelContracts {
+		reg(mg.GetKernRegistry())
 	}
 	n.Contract = mg
 	cctx.Contract = mg
